@@ -96,6 +96,8 @@ type opDef struct {
 	name  string
 }
 
+var quickAlphabet bool
+
 func buildOps(counts []uint32, nsNames []string, elect bool, srvs []int, delOne, delAll bool) []opDef {
 	var ops []opDef
 	for _, ns := range nsNames {
@@ -105,6 +107,15 @@ func buildOps(counts []uint32, nsNames []string, elect bool, srvs []int, delOne,
 		}
 		for _, c := range counts {
 			for _, rf := range rfs {
+				if quickAlphabet {
+					// quick tier: n1 keeps every (shards, rf); n2 (symmetric to n1) only (2,1),(3,1); n3 every shard count with rf=2 plus (1,1)
+					if ns == "n2" && !(rf == 1 && (c == 2 || c == 3)) {
+						continue
+					}
+					if ns == "n3" && !(rf == 2 || c == 1) {
+						continue
+					}
+				}
 				ops = append(ops, opDef{kind: kAddNS, ns: ns, count: c, rf: rf, name: fmt.Sprintf("AddNamespace(%s,shards=%d,rf=%d)", ns, c, rf)})
 			}
 		}
@@ -1271,7 +1282,7 @@ func main() {
 	}
 	alphabets := map[string][]opDef{
 		"full":    buildOps(counts, nsNames, true, []int{0, 1, 2, 3}, true, true),
-		"noelect": buildOps(counts, nsNames, false, []int{0, 1, 2, 3}, false, true),
+		"quick":   func() []opDef { quickAlphabet = true; defer func() { quickAlphabet = false }(); return buildOps(counts, nsNames, false, []int{0, 1, 2, 3}, false, true) }(),
 		// reduced alphabet for the deepest search: two namespaces (one with anti-affinity), two shard counts, servers s3/s4 only
 		"reduced": buildOps([]uint32{2, 3}, []string{"n1", "n3"}, false, []int{2, 3}, true, true),
 	}
@@ -1279,7 +1290,7 @@ func main() {
 	if run.Tier == "thorough" {
 		plan = []e1{{"reduced", 3, depth}, {"reduced", 2, depth}, {"full", 3, depth - 1}, {"full", 1, depth - 2}, {"full", 2, depth - 2}, {"full", 4, depth - 2}}
 	} else {
-		plan = []e1{{"noelect", 3, depth}, {"noelect", 1, depth}}
+		plan = []e1{{"quick", 3, depth}, {"quick", 1, depth}}
 	}
 	specFor := func(e e1) seqx.Spec {
 		ops := alphabets[e.alphabet]
